@@ -37,8 +37,14 @@ var (
 	c19Once  sync.Once
 	c19MR    *miniredis.Miniredis
 	c19Store *redis.Redis
-	c19Err   error
-	c19Seq   atomic.Int64
+	// c19StoreC: the same server through a client of Type "cluster" (go-redis ClusterClient; miniredis
+	// answers CLUSTER SLOTS as a one-node cluster).  Code that treats cluster-type stores differently
+	// is reached only through it.
+	c19StoreC *redis.Redis
+	// c19UseCluster: which client the instances of the next world use (set by the unit before c19NewWorld)
+	c19UseCluster bool
+	c19Err        error
+	c19Seq        atomic.Int64
 	// number of EVAL / EVALSHA commands the server received (see scriptRuns)
 	c19Evals atomic.Int64
 )
@@ -58,6 +64,11 @@ func c19Server(tb failer) (*miniredis.Miniredis, *redis.Redis) {
 		warm.SetExpire(1)
 		warm.Acquire()
 		warm.Release()
+		c19StoreC = redis.New(c19MR.Addr(), redis.Cluster())
+		warmC := redis.NewRedisLock(c19StoreC, "c19:warmup-cluster")
+		warmC.SetExpire(1)
+		warmC.Acquire()
+		warmC.Release()
 	})
 	if c19Err != nil {
 		tb.Skipf("inconclusive: cannot start miniredis: %v", c19Err)
@@ -83,7 +94,7 @@ var c19G c19Gate
 // connection set-up traffic of go-redis is not part of an API call
 func c19ConnCmd(cmd string) bool {
 	switch cmd {
-	case "HELLO", "CLIENT", "PING", "AUTH", "SELECT", "QUIT", "COMMAND", "ECHO":
+	case "HELLO", "CLIENT", "PING", "AUTH", "SELECT", "QUIT", "COMMAND", "ECHO", "CLUSTER", "READONLY", "READWRITE":
 		return true
 	}
 	return false
@@ -199,6 +210,12 @@ type c19World struct {
 
 func c19NewWorld(f failer, st *verifkit.Stats, nOnKey []int, secs []int) *c19World {
 	mr, store := c19Server(f)
+	if c19UseCluster {
+		store = c19StoreC
+		st.Class("store:cluster-type-client")
+	} else {
+		st.Class("store:node-type-client")
+	}
 	mr.FlushAll()
 	seq := c19Seq.Add(1)
 	w := &c19World{f: f, st: st, mr: mr, evals: c19Evals.Load()}
@@ -869,6 +886,7 @@ func TestVerifC19Machine(t *testing.T) {
 		n0 := rapid.IntRange(2, 4).Draw(t, "instancesOnA")
 		n1 := rapid.IntRange(1, 2).Draw(t, "instancesOnB")
 		secs := rapid.SliceOfN(c19InitSecGen, n0+n1, n0+n1).Draw(t, "initialSeconds") // -1: SetExpire never called
+		c19UseCluster = rapid.IntRange(0, 2).Draw(t, "clusterTypeClient") == 0
 		w := c19NewWorld(t, st, []int{n0, n1}, secs)
 		w.f = t
 		all := rapid.IntRange(0, n0+n1-1)
@@ -1064,6 +1082,7 @@ func TestVerifC19Concurrent(t *testing.T) {
 		g := rapid.IntRange(2, 12).Draw(t, "G")
 		secs := rapid.SliceOfN(c19InitSecGen, g+1, g+1).Draw(t, "seconds")
 		// instances 0..g-1 compete; instance g is an outsider used to prepare the key
+		c19UseCluster = rapid.IntRange(0, 2).Draw(t, "clusterTypeClient") == 0
 		w := c19NewWorld(t, st, []int{g + 1}, secs)
 		out := g
 		k := w.keys[0]
@@ -1164,38 +1183,42 @@ func TestVerifC19ScriptedInterleaved(t *testing.T) {
 	logx.Disable()
 	st := verifkit.New("scripted")
 	defer st.Flush()
-	for k := 1; k <= 3; k++ {
-		for _, call := range []byte{'r', 'a', 'h'} {
-			st.Eval()
-			w := c19NewWorld(t, st, []int{3}, []int{2, 30, 30})
-			const a, b = 0, 1
-			w.guard(func() {
-				if call == 'r' {
-					w.acquire(a)
-					w.interleave(&c19Step{kind: 'r', inst: a}, k,
-						[]*c19Step{{kind: 'f', arg: c19Lease(2) + 1}, {kind: 'a', inst: b}})
-					w.release(a) // late (or repeated) release: false
-					w.acquire(2) // false: b holds
-					w.release(b) // true
-				} else if call == 'h' { // the holder's refreshing Acquire, lease running out in the window
-					w.acquire(a)
-					w.interleave(&c19Step{kind: 'a', inst: a}, k,
-						[]*c19Step{{kind: 'f', arg: c19Lease(2) + 1}, {kind: 'a', inst: b}})
-					w.acquire(2) // false: one of a, b holds
-					w.forward(c19Lease(30) + 1)
-					w.acquire(2) // true
-				} else {
-					w.interleave(&c19Step{kind: 'a', inst: a}, k, []*c19Step{{kind: 'a', inst: b}})
-					w.acquire(2) // false: exactly one of a, b holds
-					w.forward(c19Lease(30) + 1)
-					w.acquire(2) // true
+	for _, cluster := range []bool{false, true} {
+		for k := 1; k <= 3; k++ {
+			for _, call := range []byte{'r', 'a', 'h'} {
+				st.Eval()
+				c19UseCluster = cluster
+				w := c19NewWorld(t, st, []int{3}, []int{2, 30, 30})
+				const a, b = 0, 1
+				w.guard(func() {
+					if call == 'r' {
+						w.acquire(a)
+						w.interleave(&c19Step{kind: 'r', inst: a}, k,
+							[]*c19Step{{kind: 'f', arg: c19Lease(2) + 1}, {kind: 'a', inst: b}})
+						w.release(a) // late (or repeated) release: false
+						w.acquire(2) // false: b holds
+						w.release(b) // true
+					} else if call == 'h' { // the holder's refreshing Acquire, lease running out in the window
+						w.acquire(a)
+						w.interleave(&c19Step{kind: 'a', inst: a}, k,
+							[]*c19Step{{kind: 'f', arg: c19Lease(2) + 1}, {kind: 'a', inst: b}})
+						w.acquire(2) // false: one of a, b holds
+						w.forward(c19Lease(30) + 1)
+						w.acquire(2) // true
+					} else {
+						w.interleave(&c19Step{kind: 'a', inst: a}, k, []*c19Step{{kind: 'a', inst: b}})
+						w.acquire(2) // false: exactly one of a, b holds
+						w.forward(c19Lease(30) + 1)
+						w.acquire(2) // true
+					}
+				})
+				if !w.dead {
+					st.NonTrivial(w.log.String())
 				}
-			})
-			if !w.dead {
-				st.NonTrivial(w.log.String())
 			}
 		}
 	}
+	c19UseCluster = false
 }
 
 // ------------------------------------------------------------------ many instances
